@@ -39,6 +39,15 @@ def parse_inline(files, units):
     out = []
     for u in units:
         lines = files[u].split("\n")
+        # lines inside a conditional block belong to analysed code only for some configurations
+        depth, cond = 0, []
+        for l in lines:
+            t = l.strip()
+            if re.match(r"#\s*(if|ifdef|ifndef)\b", t):
+                depth += 1
+            cond.append(depth > 0)
+            if re.match(r"#\s*endif\b", t):
+                depth = max(0, depth - 1)
         for i, l in enumerate(lines):
             m = INLINE_RE.search(l)
             if not m:
@@ -47,8 +56,15 @@ def parse_inline(files, units):
             ids = m.group(2)
             ids = [x.strip() for x in ids[1:-1].split(",")] if ids.startswith("[") else [ids]
             own_line = l.strip().startswith("//")
+            tl = i + 1 if own_line else i           # index of the target line
+            ttxt = lines[tl].strip() if tl < len(lines) else ""
+            # cppcheck reports an unmatched line suppression only if a checked configuration has a token on its line
+            # (markUnmatchedInlineSuppressionsAsChecked): "applied to analysed code". The model can tell that for plain
+            # code lines outside every conditional block; directive, comment and empty target lines carry no token.
+            on_code = bool(ttxt) and not ttxt.startswith("#") and not ttxt.startswith("//") and not ttxt.startswith("/*") and \
+                tl < len(cond) and not cond[tl]
             for sid in ids:
-                out.append({"id": sid, "file": u, "line": (i + 2) if own_line else (i + 1), "comment_line": i + 1, "form": form or "unique",
+                out.append({"id": sid, "file": u, "line": (i + 2) if own_line else (i + 1), "comment_line": i + 1, "form": form or "unique", "on_code": on_code,
                             "kind": "inline", "src": "%s:%d %s" % (u, i + 1, l.strip())})
     return out
 
@@ -77,7 +93,8 @@ class C24(PropBase):
             "suppression's own location for an unmatched global exact-id, exact-file or unique inline suppression; no report for "
             "anything that is not in the suppression set. distinct_nontrivial = distinct (executor, jobs, trace hash)")
     ASSUMPTIONS = ["clause (b) (must be reported) is applied only to the unambiguous sub-language: global exact id, exact analysed file "
-                   "without line, inline next-line/same-line in a unit; all forms are held to clause (a) and to schedule independence",
+                   "without line, inline next-line/same-line in a unit whose target line is a plain code line outside every conditional block "
+                   "(a suppression aimed at a directive, comment or empty line never applied to analysed code); all forms are held to clause (a) and to schedule independence",
                    "whole-program ids are not used in generated suppressions"]
 
     def count(self, tier):
@@ -141,6 +158,9 @@ class C24(PropBase):
         for s in S:
             s["matched"] = any(matches(s, f) for f in F)
         runs = [({"exec": "j1"}, ref)] + res
+        # the statement's premise: information messages are enabled (the shrinker may drop --enable)
+        en = scn["opts"].get("--enable", "")
+        info = "information" in en or "=all" in en
         for run, r in runs:
             if crashed(r) or not r.xml_ok:
                 continue
@@ -163,7 +183,7 @@ class C24(PropBase):
                 if s["matched"] and hits and not any(not t["matched"] for t in same):
                     out.violate("reported-for-matched", "unmatchedSuppression reported for a suppression that matched (%s %s, %s)" % (s["kind"], s.get("form", self._form(s)), run["exec"]),
                                 ["%s: %s matched a raw finding but is reported: %s" % (how, s["src"], hits[0].short())], ids=s["kind"] + self._form(s))
-                if not s["matched"] and self._must_report(s, scn) and not same:
+                if info and not s["matched"] and self._must_report(s, scn) and not same:
                     if len(hits) != 1:
                         out.violate("unmatched-not-reported", "unmatched %s %s suppression reported %d times (%s)" % (s["kind"], s.get("form", self._form(s)), len(hits), run["exec"]),
                                     ["%s: %s matches no raw finding; unmatchedSuppression reports naming it: %d" % (how, s["src"], len(hits))] + [f.short() for f in um][:6],
@@ -194,7 +214,7 @@ class C24(PropBase):
             if s.get("line") is None:
                 return not wild and s["file"] in scn["units"]
             return False
-        return s.get("form") == "unique" and not wild
+        return s.get("form") == "unique" and not wild and s.get("on_code", True)
 
     def candidates(self, scn):
         return exec_candidates(scn)
